@@ -221,6 +221,10 @@ func (s *c14Server) send(caseID, class string, req []byte) {
 	ctx, cancel = context.WithTimeout(context.Background(), 25*time.Second)
 	var presp []byte
 	pi := s.nprobe % len(s.probes)
+	if strings.HasPrefix(class, "wide-operator") && len(s.probes) >= 10 {
+		// right after a request with wide operators: one of the two probes that have wide operators themselves
+		pi = 8 + s.nprobe%2
+	}
 	s.nprobe++
 	perr := s.conn.Invoke(ctx, pb.QueryService_Query_FullMethodName, &s.probeBs[pi], &presp, grpc.ForceCodec(rawCodec{}))
 	cancel()
@@ -297,21 +301,23 @@ func runC14(r *vf.Run) {
 	var probes []c04Query
 	var probeBs [][]byte
 	wideProbe := func(nested bool) *oracle.Expr {
-		// two operators of eight and more operands each, side by side or one inside the other
-		mk := func(op byte, n int) *oracle.Expr {
-			x := &oracle.Expr{Op: op}
+		// two operators of eight and more operands each, side by side or one inside the other, whose results are large and
+		// different (conjunctions of negated comparisons; one of them narrowed by a positive comparison): if the two
+		// nodes were mixed up, the count would change
+		negs := func(n int) *oracle.Expr {
+			x := &oracle.Expr{Op: '&'}
 			for k := 0; k < n; k++ {
-				x.Kids = append(x.Kids, gen.Leaf(rng, ds, cols))
+				x.Kids = append(x.Kids, oracle.Not(gen.Leaf(rng, ds, cols)))
 			}
 			return x
 		}
+		a1, a2 := negs(8), negs(10)
+		a2.Kids[0] = oracle.Eq("lc3", "1")
 		if nested {
-			in := mk('|', 9)
-			out := mk('&', 8)
-			out.Kids[3] = oracle.Not(in)
-			return out
+			a1.Kids[3] = oracle.Not(a2)
+			return a1
 		}
-		return oracle.Or(mk('&', 8), mk('&', 10), mk('|', 8))
+		return oracle.Or(oracle.And(a1, oracle.Eq("lc2", "0")), a2)
 	}
 	for i := 0; i < 10; i++ {
 		e := []*oracle.Expr{probeE, oracle.Not(probeE), gen.Expr(rng, ds, cols, 2, 3), gen.Expr(rng, ds, cols, 3, 2)}[i%4]
